@@ -34,6 +34,9 @@ from vf.refs import tlsref as T
 from vf.symbytes import SymBytes
 
 LEVEL = "model_checking"
+# z3's per-query timeout is wall-clock; on a heavily shared machine a sub-second query can exceed the engine's 20 s default and turn a
+# path "inconclusive".  Raise it for this property's processes only (module global read at the start of every path; engine file untouched).
+symx.QUERY_TIMEOUT_MS = max(symx.QUERY_TIMEOUT_MS, 180000)
 ASSUMPTIONS = [
     "C helpers replaced inside the harness process by validated models: struct (vf.symbytes), io.BytesIO -> list-backed "
     "reader SymIO, range() -> lazy range over a symbolic bound, KaitaiStream.read_bytes/read_u1/read_u2be/read_u4be -> "
